@@ -95,6 +95,42 @@ def assigned_names(n: Node) -> set:
     return out
 
 
+def _mentions(text: str, path: str) -> bool:
+    i = text.find(path)
+    while i >= 0:
+        j = i + len(path)
+        if path.endswith(("[", "(")) or j >= len(text) or not (text[j].isalnum() or text[j] == "_"):
+            return True
+        i = text.find(path, i + 1)
+    return False
+
+
+def written_paths(n: Node) -> set:
+    """Normalised texts of attribute / element locations the node writes (`self.x = ..`, `self.x += ..`, `a.b[i] = ..`):
+    a fact that mentions such a location does not survive the write."""
+    from .model import norm
+    a = n.ast
+    out = set()
+    if a is None or n.kind != "stmt":
+        return out
+    tgs = []
+    if isinstance(a, ast.Assign):
+        tgs = list(a.targets)
+    elif isinstance(a, (ast.AugAssign, ast.AnnAssign)):
+        tgs = [a.target]
+    elif isinstance(a, ast.Delete):
+        tgs = list(a.targets)
+    for t in tgs:
+        for x in ([t] if not isinstance(t, (ast.Tuple, ast.List)) else list(t.elts)):
+            if isinstance(x, ast.Attribute):
+                out.add(norm(x))
+            elif isinstance(x, ast.Subscript) and isinstance(x.value, (ast.Attribute, ast.Name)):
+                out.add(norm(x.value) + "[")
+                if isinstance(x.value, ast.Attribute):
+                    out.add(norm(x.value) + ".get(")
+    return out
+
+
 def _join(a: frozenset, b: frozenset) -> frozenset:
     """Facts holding on both incoming paths: common clauses, plus pairwise disjunctions of the clauses that
     hold on one side only (bounded), e.g. {force} | {not force, available} -> {force or available}."""
@@ -141,6 +177,9 @@ class MustFacts:
                 base = inn[nid]
                 if kill:
                     base = frozenset(cl for cl in base if not (clause_names(cl) & kill))
+                paths = written_paths(n)
+                if paths:
+                    base = frozenset(cl for cl in base if not any(_mentions(t, pth) for (t, _p) in cl for pth in paths))
                 for (b, l) in g.succ[nid]:
                     if self.normal_only and l in ("exc", "excb"):
                         continue
